@@ -115,7 +115,33 @@ def check(ctx, rep):
     sites = []
     bodies = library_bodies(ctx)
     rep.floor('INV', 'library bodies scanned', len(bodies), 250)
+    # private helpers of the line writer that are only used by write/flush are judged in that context (inlined), where
+    # `written`/`capacity` are known quantities
+    helper_paths = set()
+    if m.ok:
+        region = {m.write.path, m.flush.path}
+        for pth, _bi, _d in (m.wbody.inlined or []):
+            hb = cad.bodies.get(pth)
+            if hb is None or hb.j.get('reachable') or not hb.file.endswith('io.rs'):
+                continue
+            callers = set(y.path for y in cad.all_bodies for _, tt in y.calls() if tt.get('resolved') == pth)
+            if callers and callers <= region | helper_paths | {pth}:
+                helper_paths.add(pth)
+        for bi, blk in enumerate(m.wbody.blocks):
+            fr = blk.get('frame') or ()
+            if blk['cleanup'] or not fr or fr[-1][0] not in helper_paths:
+                continue
+            tt = blk['term']
+            if tt['k'] == 'assert' and not tt['msg'].startswith(('Misaligned', 'NullPointer')):
+                cond = norm(m.T.operand_term(tt['cond'], bi, len(blk['stmts'])))
+                sites.append((cad, _InWriter(m, cad.bodies[fr[-1][0]]), bi, 'assert:' + tt['msg'], cond, m.T))
+            elif tt['k'] == 'call':
+                k = strip_generics(tt.get('callee_full', ''))
+                if any(k == n or k.endswith(n) for n in PANIC_CALLS) and not any(k == n or k.endswith(n) for n in NOT_PANIC):
+                    sites.append((cad, _InWriter(m, cad.bodies[fr[-1][0]]), bi, 'call:' + k, norm(m.T.call_term(bi)), m.T))
     for cr, b in bodies:
+        if b.path in helper_paths:
+            continue
         rep.analysed(b)
         T = None
         for bi, blk in enumerate(b.blocks):
@@ -167,6 +193,21 @@ def check(ctx, rep):
     # no panic=abort style constructs / no explicit panics in public macros
     # narrowing casts: C02-R3
     V.rule_units_and_guard(ctx, rep, units=False)
+
+
+class _InWriter:
+    """A helper body seen through its inlined copy inside MultiLineWriter::write."""
+
+    def __init__(self, m, helper):
+        self.path = m.write.path
+        self._h = helper
+        self._m = m
+
+    def short(self):
+        return self._h.short()
+
+    def where(self, bb=None, idx=None):
+        return self._m.wbody.where(bb, idx)
 
 
 def rule_M8_weak(m, rep, rid='M8w'):
